@@ -91,68 +91,87 @@ theorem outputs_back (names : List String) (outer : Scopes) (outs : List String)
       simp [hi, refName, List.getD, lookupLast_getElem hi]
 
 mutual
-theorem attr_rt (scopes : Scopes) : ∀ a : AttrP, wfAttr scopes a = true →
-    ∃ x, desAttr scopes a = .ok x ∧ serAttr scopes x = .ok (normAttr a) ∧ x.name = a.name
-  | .ref n d r t, h => by
+theorem attr_rt (scopes : Scopes) (ver : Option Int) : ∀ a : AttrP, wfAttr scopes a = true →
+    (verAllows ver = true ∨ attrHasDevCfg a = false) →
+    ∃ x, desAttr scopes a = .ok x ∧ serAttr scopes ver x = .ok (normAttr a) ∧ x.name = a.name
+  | .ref n d r t, h, _ => by
     simp only [wfAttr, Bool.and_eq_true, decide_eq_true_eq] at h
     exact ⟨.ref n d r t, by simp [desAttr, h.2], rfl, rfl⟩
-  | .int n d i, _ => ⟨.int n d i, rfl, rfl, rfl⟩
-  | .float n d b, _ => ⟨.float n d b, rfl, rfl, rfl⟩
-  | .string n d s, _ => ⟨.string n d s, rfl, rfl, rfl⟩
-  | .ints n d xs, _ => ⟨.ints n d xs, rfl, rfl, rfl⟩
-  | .floats n d xs, _ => ⟨.floats n d xs, rfl, rfl, rfl⟩
-  | .strings n d xs, h => by
+  | .int n d i, _, _ => ⟨.int n d i, rfl, rfl, rfl⟩
+  | .float n d b, _, _ => ⟨.float n d b, rfl, rfl, rfl⟩
+  | .string n d s, _, _ => ⟨.string n d s, rfl, rfl, rfl⟩
+  | .ints n d xs, _, _ => ⟨.ints n d xs, rfl, rfl, rfl⟩
+  | .floats n d xs, _, _ => ⟨.floats n d xs, rfl, rfl, rfl⟩
+  | .strings n d xs, h, _ => by
     simp only [wfAttr] at h
     obtain ⟨ys, h1, h2⟩ := desBStrs_utf8 xs h
     exact ⟨.strings n d ys, by simp [desAttr, h1, bind, Except.bind], by simp [serAttr, h2, normAttr], rfl⟩
-  | .tensor n d t, h => by
+  | .tensor n d t, h, _ => by
     simp only [wfAttr] at h
     obtain ⟨x, g1, g2, _⟩ := tensor_roundtrip t h
     exact ⟨.tensor n d x, by simp [desAttr, g1, bind, Except.bind], by simp [serAttr, g2, normAttr], rfl⟩
-  | .tensors n d ts, h => by
+  | .tensors n d ts, h, _ => by
     simp only [wfAttr] at h
     obtain ⟨xs, h1, h2⟩ := desTensors_roundtrip ts h
     exact ⟨.tensors n d xs, by simp [desAttr, h1, bind, Except.bind], by simp [serAttr, h2, normAttr], rfl⟩
-  | .graph n d g, h => by
+  | .graph n d g, h, hv => by
     simp only [wfAttr] at h
-    obtain ⟨x, g1, g2⟩ := graph_rt scopes none g h (Or.inl rfl)
+    obtain ⟨x, g1, g2⟩ := graph_rt scopes ver g h (by simpa [attrHasDevCfg] using hv)
     exact ⟨.graph n d x, by simp [desAttr, g1, bind, Except.bind],
       by simp [serAttr, g2, normAttr, bind, Except.bind], rfl⟩
-  | .graphs n d gs, h => by
+  | .graphs n d gs, h, hv => by
     simp only [wfAttr] at h
-    obtain ⟨xs, g1, g2⟩ := graphs_rt scopes gs h
+    obtain ⟨xs, g1, g2⟩ := graphs_rt scopes ver gs h (by simpa [attrHasDevCfg] using hv)
     exact ⟨.graphs n d xs, by simp [desAttr, g1, bind, Except.bind],
       by simp [serAttr, g2, normAttr, bind, Except.bind], rfl⟩
-  | .typeProto n d tp, h => by
+  | .typeProto n d tp, h, _ => by
     simp only [wfAttr] at h
     obtain ⟨ty, sh, g1, g2⟩ := typeAndShape_roundtrip tp h
     exact ⟨.typeProto n d ty sh, by simp [desAttr, g1, bind, Except.bind], by simp [serAttr, g2, normAttr], rfl⟩
-  | .typeProtos n d tps, h => by
+  | .typeProtos n d tps, h, _ => by
     simp only [wfAttr] at h
     obtain ⟨xs, h1, h2⟩ := desTypeAndShapes_roundtrip tps h
     exact ⟨.typeProtos n d xs, by simp [desAttr, h1, bind, Except.bind], by simp [serAttr, h2, normAttr], rfl⟩
-  | .undefined _ _, h => by simp [wfAttr] at h
-  | .sparse _ _ _, h => by simp [wfAttr] at h
-  | .unknown _ _ _, h => by simp [wfAttr] at h
+  | .undefined _ _, h, _ => by simp [wfAttr] at h
+  | .sparse _ _ _, h, _ => by simp [wfAttr] at h
+  | .unknown _ _ _, h, _ => by simp [wfAttr] at h
 
-theorem graphs_rt (scopes : Scopes) : ∀ gs : List GraphP, wfGraphs scopes gs = true →
-    ∃ xs, desGraphs scopes gs = .ok xs ∧ serGraphs scopes xs = .ok (normGraphs gs)
-  | [], _ => ⟨[], rfl, rfl⟩
-  | g :: gs, h => by
+theorem graphs_rt (scopes : Scopes) (ver : Option Int) : ∀ gs : List GraphP, wfGraphs scopes gs = true →
+    (verAllows ver = true ∨ graphsHaveDevCfg gs = false) →
+    ∃ xs, desGraphs scopes gs = .ok xs ∧ serGraphs scopes ver xs = .ok (normGraphs gs)
+  | [], _, _ => ⟨[], rfl, rfl⟩
+  | g :: gs, h, hv => by
     simp only [wfGraphs, Bool.and_eq_true] at h
-    obtain ⟨x, g1, g2⟩ := graph_rt scopes none g h.1 (Or.inl rfl)
-    obtain ⟨xs, h1, h2⟩ := graphs_rt scopes gs h.2
+    have hv1 : verAllows ver = true ∨ graphHasDevCfg g = false := by
+      rcases hv with hv | hv
+      · exact Or.inl hv
+      · simp only [graphsHaveDevCfg, Bool.or_eq_false_iff] at hv; exact Or.inr hv.1
+    have hv2 : verAllows ver = true ∨ graphsHaveDevCfg gs = false := by
+      rcases hv with hv | hv
+      · exact Or.inl hv
+      · simp only [graphsHaveDevCfg, Bool.or_eq_false_iff] at hv; exact Or.inr hv.2
+    obtain ⟨x, g1, g2⟩ := graph_rt scopes ver g h.1 hv1
+    obtain ⟨xs, h1, h2⟩ := graphs_rt scopes ver gs h.2 hv2
     exact ⟨x :: xs, by simp [desGraphs, g1, h1, bind, Except.bind],
       by simp [serGraphs, g2, h2, normGraphs, bind, Except.bind]⟩
 
-theorem attrs_rt (scopes : Scopes) : ∀ as : List AttrP, wfAttrs scopes as = true →
-    ∃ xs, desAttrs scopes as = .ok xs ∧ serAttrs scopes xs = .ok (normAttrs as) ∧
+theorem attrs_rt (scopes : Scopes) (ver : Option Int) : ∀ as : List AttrP, wfAttrs scopes as = true →
+    (verAllows ver = true ∨ attrsHaveDevCfg as = false) →
+    ∃ xs, desAttrs scopes as = .ok xs ∧ serAttrs scopes ver xs = .ok (normAttrs as) ∧
       xs.map IRAttr.name = as.map AttrP.name
-  | [], _ => ⟨[], rfl, rfl, rfl⟩
-  | a :: as, h => by
+  | [], _, _ => ⟨[], rfl, rfl, rfl⟩
+  | a :: as, h, hv => by
     simp only [wfAttrs, Bool.and_eq_true] at h
-    obtain ⟨x, g1, g2, g3⟩ := attr_rt scopes a h.1
-    obtain ⟨xs, h1, h2, h3⟩ := attrs_rt scopes as h.2
+    have hv1 : verAllows ver = true ∨ attrHasDevCfg a = false := by
+      rcases hv with hv | hv
+      · exact Or.inl hv
+      · simp only [attrsHaveDevCfg, Bool.or_eq_false_iff] at hv; exact Or.inr hv.1
+    have hv2 : verAllows ver = true ∨ attrsHaveDevCfg as = false := by
+      rcases hv with hv | hv
+      · exact Or.inl hv
+      · simp only [attrsHaveDevCfg, Bool.or_eq_false_iff] at hv; exact Or.inr hv.2
+    obtain ⟨x, g1, g2, g3⟩ := attr_rt scopes ver a h.1 hv1
+    obtain ⟨xs, h1, h2, h3⟩ := attrs_rt scopes ver as h.2 hv2
     exact ⟨x :: xs, by simp [desAttrs, g1, h1, bind, Except.bind],
       by simp [serAttrs, g2, h2, normAttrs, bind, Except.bind], by simp [g3, h3]⟩
 
@@ -165,7 +184,10 @@ theorem node_rt (outer : Scopes) (vis : List ValueInfoP) (q : List AnnotP) (ver 
   | .mk inputs outputs name opType domain overload doc attrs metadata devcfgs, h, hver => by
     simp only [wfNode, Bool.and_eq_true, List.headD_cons] at h
     obtain ⟨⟨⟨⟨⟨hin, hout⟩, hnd⟩, hattrs⟩, _hmeta⟩, hdev⟩ := h
-    obtain ⟨xs, a1, a2, a3⟩ := attrs_rt (tableNames tbl :: outer) attrs hattrs
+    obtain ⟨xs, a1, a2, a3⟩ := attrs_rt (tableNames tbl :: outer) ver attrs hattrs
+      (by rcases hver with hv | hv
+          · exact Or.inl hv
+          · simp only [nodeHasDevCfg, Bool.or_eq_false_iff] at hv; exact Or.inr hv.2)
     have hnd' := nodupStr_iff.1 hnd
     have hord : orderByFirst (attrs.map AttrP.name) xs = xs := by
       rw [← a3]; exact orderByFirst_self (by rw [a3]; exact hnd')
